@@ -40,6 +40,14 @@ CHECKS = {
   text="Bounded symbolic model checking with a symbolic outcome per matrix-routine call (success / raise / NaN / Inf result), symbolic gradient presence, NaN gradients and a symbolic integer tolerance N: a per-block reference counter decides on every path whether step() must raise; failed factors keep their matrix; non-finite factors/results raise PreconditionerValueError with all parameters unchanged; stored roots/eigenbases never carry the non-finite marker. Shampoo and SOAP lists.",
   note="Trusted: recording stubs for the matrix routines; non-finite values as tensor-level markers propagated by every stand-in operation; <=3 refreshes (quick)/<=4 (thorough), N<=3, weight decay/momentum/filtering off.",
   ref="DESIGN.md section 3 C13"),
+ "C03": dict(
+  text="Bounded symbolic model checking of the real EigenvalueCorrectedShampooPreconditionerList inside the real optimizer against a SOAP reference model: the eigenvector routine is a recording stub (contract: orthonormal result), so validity of stored bases reduces to proved statements - the stored basis changes only at schedule steps and equals what the routine returned for the current factor matrix (QR: with the previous basis as estimate, operands the routine can multiply); corrected eigenvalues, rotated/rotated-back directions, no-basis and ignored-dims cases, order-3 rotate pairing and all state tensors are proved equal to the reference (z3 polynomial identities).",
+  note="Trusted: matrix_eigenvectors stub (the routine itself is C12); real arithmetic; dtype pairs as tags with torch's matmul mismatch rule; T<=4 re-based, <=8 elements; generic equality regime plus one all-regime job per method.",
+  ref="DESIGN.md section 3 C03"),
+ "C05": dict(
+  text="(b) the real merge_small_dims with symbolic integer dims and threshold: z3 proves per path product preservation and that the output is a fusion of consecutive runs of the non-1 dims with every fused run within the threshold; (c) bounded symbolic differential: optimizer on a tensor under a blocking vs optimizer on its blocks as separate parameters, parameters and per-block state proved equal; (a) tiling relations (views, exact cover, row-major order within the merged shape, limit, gradient index sets) by exhaustive enumeration of shapes/limits on the stand-in's exact view semantics.",
+  note="Trusted: part (a) is enumeration of concrete shapes (order 0..4, dims<=3 quick / 4 thorough, limits 1..6), not solver-quantified; (b) dims/threshold 1..64, order<=4; (c) as C01, T=2, generic regime.",
+  ref="DESIGN.md section 3 C05"),
 }
 NA = {
  "C18": "the compiled step exists only as TorchDynamo/AOTAutograd output traced over real torch; it cannot be executed on symbolic tensors or translated to SMT within reach",
